@@ -286,7 +286,9 @@ Definition build_envelope_fault (d : definitions) (po : pt_operation) (target : 
       let body1 := build_inner_class body m_fault (c_namespace target) in
       let body2 := update_inner body1 m_fault (finish_fault_class das) in
       let body3 := set_attrs body2 (map set_min0 (c_attrs body2)) in
-      Some (update_inner target m_body (fun _ => body3))
+      let target1 := update_inner target m_body (fun _ => body3) in
+      (* every member of the envelope but Body becomes optional (a Fault need not carry the headers) *)
+      Some (set_attrs target1 (map (fun a => if str_eqb (a_name a) m_body then a else set_min0 a) (c_attrs target1)))
   | _, _ => None
   end.
 
